@@ -68,6 +68,30 @@ def run_cli(spec, tier, seed):
                                   f'extra {extra} ({len(got - exp)} lines, forms {sorted({x.split(".")[0] for x in got - exp})[:4]}), missing {missing}', rp)
                 if len(res.samples) < 1:
                     res.sample({'cmd': ' '.join(args[2:]), 'sections_written': sorted({x.split('.')[0] for x in got})})
+            # the same closure when inputs that many lines wait for are typed at the prompt instead
+            from hv.monitors import c20
+            heavy = [q for q in ('1040.number_dependents', '1040.filing_status', '1040.number_w-2', '1040.number_1099-int', '1040.number_1099-div', '1040.itemize') if q in p.answers]
+            if heavy and out0.ret is True:
+                lookup = c20.InputLookup(year)
+                path2 = os.path.join(tmp, 'in2.ini')
+                write_ini(path2, {q: v for q, v in p.answers.items() if q not in heavy})
+                sol = os.path.join(tmp, 'sol2.ini')
+                if os.path.exists(sol):
+                    os.remove(sol)
+                q2 = scen.Persona(year, fam, p.key, overrides=dict(p.answers))
+
+                def a(name):
+                    return q2.answer(lookup.get(name))
+                a.lookup = lookup
+                r, given = c20.session(year, p.forms(), path2, a, extra_args=['--solution', sol])
+                res.evaluations += 1
+                res.count('cli_closure_checks_prompted')
+                if r.exc is None and os.path.exists(sol):
+                    got = {k_ for k_ in parse(sol) if not k_.startswith('habutax.')}
+                    exp = {f'{s_}.{k_}' for s_, kv in drive.solution_map(out0).items() for k_ in kv}
+                    if got != exp:
+                        res.violation('C04|cli|prompted-solution-ne-closure', f'{year} {fam}: with {heavy} typed at the prompt the written solution differs from the closure of the same inputs: '
+                                      f'missing {sorted(exp - got)[:4]} ({len(exp - got)}), extra {sorted(got - exp)[:4]}', {'engine': 'cli', 'persona': p.describe(), 'typed': heavy, 'shard': spec})
     finally:
         import shutil
         shutil.rmtree(tmp, ignore_errors=True)
